@@ -3,7 +3,7 @@ import json
 import os
 from nk import report
 from nk.report import RuleResult
-from rules import rng, err, pagebase, overlap
+from rules import rng, err, pagebase, overlap, deadstore
 from . import common
 
 EXPLANATION = (
@@ -15,7 +15,7 @@ EXPLANATION = (
     'field (either sign spelling). R-RNG1 (violation): the value is bounded by a range the field cannot hold (check wider than '
     'the field). R-RNG2 (violation): no test with an error arm on the value exists on any path to the mask. Sites whose '
     'check has a form the interval domain does not express (same-page tests, path-dependent checks, table limits) are '
-    'observations, not decided. R-ERR2: a range diagnostic is followed by an error return. Not decided: injectivity of '
+    'observations, not decided. R-ERR2: a range diagnostic is followed by an error return. DEAD-STORE: in assemblers and decoders no computed value (a scaling, mask or adjustment of an operand) is overwritten in its basic block before anything reads it. Not decided: injectivity of '
     'whole encodings, values OR-ed in without a mask, split fields whose bit set is not contiguous. PAGE-BASE: the same-block test of the paged jumps (8051 ajmp/acall, MIPS j/jal) compares the operand\'s block with the block of the architectural base (pc+2, pc+4). TAUT-CHECK: no comparison in asm/*.cpp tests a value against a same-block copy of itself. RANGE-CONTRA: the guard of every range diagnostic is satisfiable (read as a set of values of the tested expression, parameters taken at their call-site constants): `v < low && v > high` never rejects anything. FIELD-OVERLAP: in every emission `add_binN(opcode | f1 | f2 ...)` whose operand fields have a known bit shape (masks, shifts, interval-bounded operands, same-block definitions followed structurally) the fields are pairwise disjoint, so no accepted operand value spills into another operand. EMIT-FIT (with FIELD-OVERLAP): a field with a known bit shape does not reach beyond the unit add_bin8/16 stores. GUARD-USE: in the Epiphany assembler every register inserted into a 16-bit word is tested in a dominating condition. VALUE-REWRITE: an evaluated operand value is replaced by a constant only under an exact equality test of that value. REG-BOUND: every decimal '
     'accumulation `v = v*10 + digit` in an assembler loop is bounded inside the loop (a many-digit register number cannot wrap into a valid one).')
 
@@ -35,6 +35,6 @@ def run(tier, t0):
     e2.floor = 50
     rb = rng.digit_acc(prog)
     vr = rng.value_rewrite(prog)
-    return report.finish('C06', tier, [res, e2, rb, vr, pagebase.page_base(prog), pagebase.taut_check(prog), pagebase.range_contra(prog), overlap.field_overlap(prog, floor=100), overlap.guard_use(prog)], EXPLANATION,
+    return report.finish('C06', tier, [res, e2, rb, vr, pagebase.page_base(prog), pagebase.taut_check(prog), pagebase.range_contra(prog), overlap.field_overlap(prog, floor=100), overlap.guard_use(prog), deadstore.dead_store(prog, lambda f: f.file.startswith('asm/'), 500)], EXPLANATION,
                          ['a mask applied to a value is taken as the field it is encoded into; values inserted without a mask are not sites'],
                          common.TRUSTED, t0)
